@@ -71,6 +71,7 @@ def generate(seed, profile):
             ops.append(op)
     if profile.final_restart and (not ops or ops[-1]['op'] != 'restart'):
         ops.append({'op': 'restart', 'dt': draw_dt(renv)})
+        model.apply(ops[-1])
     plan = {'seed': seed, 'profile': profile.name, 'cfg': cfg, 'env': w.env_record(),
             'blocksize': w.rng('env2').choice((2048, 4096, 32768, 32768, 65536, 1 << 20, 1000, 3000)), 'ops': ops}
     if profile.post_gen:
@@ -94,6 +95,7 @@ class Ctx:
         self.last_wf = None
         self.note = None
         self.soft = False
+        self.stop = False
 
     @property
     def model(self):
@@ -212,9 +214,9 @@ def execute(plan, oracle):
             ctx.event('new', sorted(plan['cfg'].items(), key=str))
             oracle.on_new(ctx)
             for op in plan['ops']:
-                if ctx.status != 'ok':
+                if ctx.status != 'ok' or ctx.stop:
                     break
-                if op.get('expect') == 'refuse':
+                if op.get('expect'):
                     # a doomed call: must be invalid in the current model state, else it is skipped
                     if oracle.doomed_applicable(ctx, op):
                         w.clock.advance(op.get('dt', 0.0))
